@@ -187,7 +187,7 @@ def _nested(p, q, depth, shape):
     ty = inner
     d = 0
     while d < depth:
-        ty = T("vec", T(q), ty, ns=("std",)) if d == 0 else T("opt", ty, ns=("std",), const=(d == 2), suf=("&" if d == 2 else ""))
+        ty = T("vec", T("lst", T(q), ns=("std",)), ty, ns=("std",)) if d == 0 else T("opt", ty, ns=("std",), const=(d == 2), suf=("&" if d == 2 else ""))
         d += 1
     ok = _check_type(ty, [p], [X])
     reached()
@@ -196,7 +196,7 @@ def _nested(p, q, depth, shape):
 
 def c02_nested_d1(p: str, q: str, shape: int) -> bool:
     """
-    Occurrence inside template arguments at depth 1 (`std::vec<q, ...p...>`), bare / qualified / scoped.
+    Occurrence inside template arguments at depth 1 (`std::vec<std::lst<q>, ...p...>`: a templated sibling comes first), bare / qualified / scoped.
     pre: _pre(p, q, LP, LQ) and 0 <= shape < 4
     pre: not (kf_open('C02-substring') and p in q)
     post: _
